@@ -203,6 +203,7 @@ def main(tier, seed):
     rep.corr["knn_batches"] = dict(cases=stats["knn"] + stats["unsup"], distribution=stats)
     import drive_streams
     nviol += drive_streams.reused_containers(rep, rng, tier)
+    nviol += drive_streams.overflow_queries(rep, rng, tier)
     rep.extra["oracle_violations"] = nviol
     rep.samples = [it.desc() for it in insts[:2]]
     rep.rule = ("fitted models of all four kinds; batches of 2-9 queries with duplicated rows and training rows; each batch is predicted as a whole, permuted, row by row "
